@@ -79,10 +79,14 @@ def handle : Handler := fun op inp impl => do
   | "cstep" =>
     let pre ← csOfJson (← jget inp "pre")
     let lab ← fStr inp "label"
-    let post ← csOfJson impl
+    let post ← (if (jopt impl "panic").isSome then pure pre else csOfJson impl)
     let tags := [s!"label:{(lab.splitOn ":").head!}", s!"at:{phaseTag pre}"] ++
       (match pre.ro.sub with | some s => if pre.gone then [] else [s!"state:{RV.Drv.RolloutSM.stateStr s.state}"] | none => [])
-    let holds := RV.Oracle.ClosedLoop.stateOracles post ++ RV.Oracle.ClosedLoop.stepOracles pre lab post
+    let fwd := match jopt inp "fwd" with | some (.bool b) => b | _ => false
+    let implPanic := (jopt impl "panic").isSome
+    let holds := if implPanic then [("C09.loop_total", false), ("C06.loop_total", false)] else
+      RV.Oracle.ClosedLoop.stateOracles post fwd ++ RV.Oracle.ClosedLoop.stepOracles pre lab post
+    let tags := (if fwd then "scope:fwd" else "scope:any") :: (if RV.Oracle.ClosedLoop.fwdInv post then "fwdInv:holds" else "fwdInv:fails") :: tags
     match labelOf lab with
     | none => return { model := .null, holds := holds, tags := "uncompared" :: tags }
     | some l =>
